@@ -225,9 +225,9 @@ func genTruthArg(r *run.Rand) string {
 	case 0, 1:
 		return ""
 	case 2:
-		return string(r.Bytes(r.Range(1, 3), []byte(alphaWS)))
+		return string(r.Bytes(r.Range(1, 3), []byte(alphaWS+"\r\v\f"))) // every ASCII white-space character
 	case 3:
-		return []string{"0", "false", " x ", "\tq", "\u00a0", "\x00"}[r.Intn(6)]
+		return []string{"0", "false", " x ", "\tq", "\u00a0", "\x00", "\v", "\f", "\r", " \f", "\v\t"}[r.Intn(11)]
 	}
 	return genWord(r)
 }
